@@ -164,11 +164,16 @@ class TracebackShim:
         return getattr(self._tb, k)
 
 
-def install(uf_match=None):
-    """instrument + install the environment stubs.  Returns the modules."""
+_REAL = {}
+
+
+def install(uf_match=None, real_capture=False):
+    """instrument + install the environment stubs.  Returns the modules.
+    real_capture: keep the REAL utils.CaptureStdout (C12 / C01 capture obligations)"""
     ins = instrumented()
     from xdoctest import doctest_example, doctest_part, checker, utils, directive, constants, exceptions
-    utils.CaptureStdout = SymCapture
+    _REAL.setdefault('CaptureStdout', utils.CaptureStdout)
+    utils.CaptureStdout = _REAL['CaptureStdout'] if real_capture else SymCapture
     doctest_example.traceback = TracebackShim()
     ins.RT.STUBS.update(compile=stub_compile, exec=stub_exec, eval=stub_exec)
     return dict(doctest_example=doctest_example, doctest_part=doctest_part, checker=checker,
